@@ -29,9 +29,8 @@ fn subtree_hashes(v: &V, out: &mut HashMap<String, V>) -> Vec<u8> {
             s.finalize().to_vec()
         }
     };
-    if matches!(v, V::P(_, _)) {
-        out.entry(hex(&h)).or_insert_with(|| v.clone());
-    }
+    // atoms too: in optimised builds the code of an accessor function is a bare path atom
+    out.entry(hex(&h)).or_insert_with(|| v.clone());
     h
 }
 
@@ -116,6 +115,10 @@ pub fn judge(prog: &Program, d: Dialect, mo: ModernOpts, c: &mut Choices, st: &m
                     continue;
                 };
                 let hb = hex::decode(k).unwrap();
+                st.label("through:path_to_function");
+                if matches!(code_f, V::A(_)) {
+                    st.label("through:path_to_function:code-is-an-atom");
+                }
                 let Some(path) = path_to_function(envq.clone(), &hb) else {
                     return Err(Viol::new("path_to_function-misses-code-that-is-in-the-env", "a path", "None", case(json!({"key": k, "function": name}))));
                 };
@@ -252,6 +255,9 @@ impl Prop for C13Prop {
             return Some("cl23-cse-hoists-partial-operation-above-its-guard");
         }
         None
+    }
+    fn sut_crash_is_violation(&self) -> bool {
+        false
     }
     fn case_timeout(&self) -> (u64, bool) {
         (40, false)
